@@ -9,7 +9,11 @@ THEOREMS = ["C02_engine_source_shape", "C02_route_count", "C02_never_unaccepted"
             # whole runs of the runner LTS: tick conservation (no loss, no duplication up to the reducer)
             "C02_ticks_conserved", "C02_ticks_conserved_from", "C02_event_reduced_at_most_once_per_creation",
             "C02_unreduced_tick_still_pending", "C02_ended_run_is_frozen", "C02_step_output_reaches_reducer",
-            "C02_stop_result_ends_run", "C02_buffered_tick_reaches_reducer"]
+            "C02_stop_result_ends_run", "C02_buffered_tick_reaches_reducer",
+            # the delivery is made: a queued event waits only for a worker (one reduction, whole runs), and a freed worker
+            # goes to the queue head first, in order, whatever made the invocation give it back
+            "C02_queued_event_waits_only_for_a_worker", "C02_accepted_event_started_as_soon_as_a_worker_is_free",
+            "C02_step_result_hands_queue_over_in_order"]
 LEAN_TARGETS = ["WfProps.C02"]
 EXPLANATION = (
     "Lean: for every state (with the C01 invariant), every event, target and clock, the add-event tick changes the "
@@ -17,8 +21,12 @@ EXPLANATION = (
     "(which then carry the event as wait result and are not routed to as well), else 1 iff the exact type is accepted "
     "and the step is the target (or no target), else 0; UnhandledEvent is published iff nobody received it and it is "
     "not an InputRequiredEvent, exactly once; step outputs are re-queued exactly once with the lineage's recovery "
-    "counts and buffered once by the runner. Tie: reducer/runner correspondence. Search: recipients per add-event "
-    "tick recomputed from the static graph on real runs, ctx.send_event -> mailbox 1:1 with target, never-unaccepted."
+    "counts and buffered once by the runner; in every state of every run that has not ended a step holding a queued event has "
+    "all its workers taken, and a step-result reduction starts a prefix of the queue in order on the freed worker, whether the "
+    "invocation completed, suspended in wait_for_event, failed into a retry or into a handler. Tie: reducer/runner correspondence. "
+    "Search: recipients per add-event tick recomputed from the static graph on real runs, ctx.send_event -> mailbox 1:1 with "
+    "target, never-unaccepted; every delivery owed is made (CommandRunWorker / step entry) as soon as the step has a free worker, "
+    "tracked from the reducer's inputs and commands on saturated steps."
 )
 ASSUMPTIONS = suite.ENGINE_ASSUMPTIONS + [
     "'unless the run ends first': ticks still in the buffer/mailbox when an exit command is processed are dropped by design",
@@ -28,10 +36,22 @@ ASSUMPTIONS = suite.ENGINE_ASSUMPTIONS + [
 
 def run(env: Env) -> Outcome:
     out = Outcome()
-    out.rule = ("direct (state,tick) pairs + live scripted workflows (fan-out via send_event, targeted sends, external sends, waiters); "
+    out.rule = ("direct (state,tick) pairs + live scripted workflows (fan-out via send_event, targeted sends, external sends, waiters, saturated "
+                "steps whose invocations suspend / fail into a retry / fail into a handler with events queued behind them); "
                 "non-trivial = more than 2 ticks; distinct by (spec, schedule)")
-    suite.direct_corr(env, out, env.budget(3000, 60000))
-    suite.live_runs(env, out, env.budget(400, 8000), [monitors.mon_c02], extra_specs=suite.load_corpus("C02"))
+    case = (env.replay or {}).get("payload", {}).get("case") if env.replay is not None else None
+    if isinstance(case, dict) and "direct_pair" in case:
+        # a (state, tick) pair of the direct stream: regenerated from its generator seed, monitored alone
+        dp = case["direct_pair"]
+        suite.direct_corr(env, out, dp["index"] + 1, gen_kwargs=dp.get("gen_kwargs") or {}, pair_monitor=monitors.c02_pair_handover,
+                          gen_seed=dp["gen_seed"], only_index=dp["index"])
+    # the corpus (hand-picked minimal sequences) and a replayed live case run first
+    suite.live_runs(env, out, 0, [monitors.mon_c02], extra_specs=suite.load_corpus("C02"))
+    suite.direct_corr(env, out, env.budget(3000, 60000), pair_monitor=monitors.c02_pair_handover)
+    suite.live_runs(env, out, env.budget(400, 8000), [monitors.mon_c02])
     # waits: responses that are duplicates / non-matching / early / late; request-reply waits that differ only in the requirement value
     suite.live_runs(env, out, env.budget(250, 5000), [monitors.mon_c02], gen_kwargs={"family": "wait"})
+    # saturated steps whose running invocations give their worker back without a step result (suspend in wait_for_event, fail into a
+    # delayed retry, fail for good into a @catch_error handler) while later events sit in the queue: the hand-over of the freed worker
+    suite.live_runs(env, out, env.budget(50, 1000), [monitors.mon_c02], gen_kwargs={"family": "handover"})
     return out
